@@ -233,7 +233,8 @@ class OverrideSpec:
         if outcome[0] == 'raise' and lookups and lookups[0][3] is None:
             ex.prove('C16:ShortOp.eval:undefined-variable-is-ParserError', ['C16', 'C07'],
                      L.exc_is_sub(outcome[1], PE))
-        ops_ = [e for e in ex.events if e[0] == 'prim' and e[1] in ('binop', 'mul_call')]
+        ops_ = [e for e in ex.events if e[0] == 'prim' and e[1] == 'mul_call'] or \
+               [e for e in ex.events if e[0] == 'prim' and e[1] == 'binop']
         if outcome[0] == 'return':
             ex.prove('C07:ShortOp.eval:statement-yields-None', ['C07'], outcome[1] == L.NoneV)
             ex.prove('C07:ShortOp.eval:stores-back-exactly-once', ['C07', 'C10'], len(stores) == 1)
